@@ -4,7 +4,7 @@
 # 3. demo fails with the patch      4. ./check PID against the patched scratch tree (VERIF_REPO)   5. tree restored
 set -u
 PID=$1; N=$2; TIER=${3:-quick}; CHECKS=${4:-$PID}
-W=/tmp/seed-$PID; M=$W/out/m$N
+W=${SEEDBASE:-/tmp/seed}-$PID; M=$W/out/m$N   # SEEDBASE=/tmp/seed3 for the third batch
 export GOFLAGS=-mod=mod GOPROXY=off GOSUMDB=off GOTOOLCHAIN=local
 cd $W || exit 2
 git checkout -q -- . ; git clean -fdq -e out
